@@ -48,6 +48,9 @@ def fixed_runs():
         ("DJI", opt(ratio_stocks_untouched="no_stored_between_years", NMONTHS=48)),
         ("ARG", opt(scenario="industrial_foods", shutoff="continued")),
         ("EST", opt(**BASELINE)),
+        # months without harvest while stored crops go to feed: the 'eaten immediately' column was negative here
+        # (rounds 2 and 3) before the clamp fix in Extractor.extract_outdoor_crops_results
+        ("ARG", opt(**BASELINE)),
         ("WOR", opt(scenario="seaweed", **GLOBAL)),
         ("USA", opt(cull="dont_eat_culled", stored_food="zero", NMONTHS=72)),
         # near-zero optimum (0.0003 percent fed): the relative bound meets CBC's absolute row tolerance here
@@ -103,7 +106,7 @@ def run(ctx):
                 "[pfm*(1-1e-4), pfm*(1+1e-6)] with pfm the first-solve objective, and == min consumed_kcals variable (1e-6); "
                 "round 2: 2/3 feed + 1/3 biofuel >= pfm*(1-1e-4); CSV cells == returned arrays exactly (float parse), header and "
                 "row count; immediate + new stored == eaten (1e-9 of the series scale) in billions fed and in the saved columns, "
-                "new stored >= 0; stored series within half a unit of the last kept decimal; hand-off link: "
+                "new stored >= 0, eaten immediately >= 0 (extractor series, percent, returned column and csv column); stored series within half a unit of the last kept decimal; hand-off link: "
                 "in_units_bil_kcals...(feed_sum_kcals_equivalent / biofuels_sum_kcals_equivalent)[m] == sum of the captured feed / "
                 "biofuel variables (stored + crops + seaweed*SEAWEED_KCALS + cell sugar + SCP; 1e-9 of the series scale) and, in "
                 "rounds 1/3, == the round's charge (1e-6).  non-trivial round = >= 4 foods "
@@ -284,6 +287,13 @@ def generated(ctx):
             for w in r["csv_failures"][:2]:
                 ctx.violation("C04:csv@Interpreter.interpret_results", w,
                               {"kind": "counterexample", "generated": slim_case(c), "what": w})
+            # direct: eaten immediately is never negative when the crops eaten are not
+            cr_vals = c["vars"]["crops_food_to_humans"]
+            if (cr_vals is None or min(cr_vals) >= 0) and any(x < 0 for x in o["e"][9] + o["k"][7]):
+                mneg = next(m for m, x in enumerate(o["e"][9]) if x < 0)
+                ctx.violation("C04:crop-split-negative@Extractor.extract_outdoor_crops_results",
+                              f"generated case: immediate_outdoor_crops {o['e'][9][mneg]!r} billion people fed in month {mneg}",
+                              {"kind": "counterexample", "generated": slim_case(c), "month": mneg})
             # direct: split adds up, new stored non-negative
             for m in range(len(ns)):
                 sc = max(abs(o["e"][1][m]), abs(c["series"]["crops_prod"][m]) / c["km"], 1e-300)
@@ -433,7 +443,8 @@ def key_site(kind):
             "rounded": "Interpreter.correct_and_validate_rounding_errors",
             "optimum": "Optimizer.run_optimizations_on_constraints",
             "feed-link": "Interpreter.calculate_feed_and_biofuels", "csv": "Interpreter.interpret_results",
-            "split": "Extractor.to_monthly_list_outdoor_crops_kcals"}.get(kind, "run")
+            "split": "Extractor.to_monthly_list_outdoor_crops_kcals",
+            "crop-split-negative": "Extractor.extract_outdoor_crops_results"}.get(kind, "run")
 
 
 def replay(rep):
